@@ -71,6 +71,47 @@ def short_hash(obj: Any) -> str:
 # --------------------------------------------------------------------------- worker
 
 
+def logging_on(idx: int) -> bool:
+    """every third case runs with asphalt's logging switched on down to DEBUG (records are formatted and thrown away), the
+    others with logging disabled: what the library does must not depend on whether anybody listens to its log"""
+    return idx % 3 == 1
+
+
+class _FormatAndDrop:
+    """installed as the only handler of the root logger while a case runs with logging on"""
+
+    _handler: Any = None
+
+    @classmethod
+    def handler(cls) -> Any:
+        import logging
+
+        if cls._handler is None:
+            class Handler(logging.Handler):
+                def emit(self, record: Any) -> None:
+                    try:
+                        self.format(record)
+                    except Exception:  # logging.Handler.handleError() would only print; formatting errors never propagate
+                        pass
+
+            cls._handler = Handler(level=logging.DEBUG)
+        return cls._handler
+
+
+def set_logging(on: bool) -> None:
+    import logging
+
+    root = logging.getLogger()
+    h = _FormatAndDrop.handler()
+    if on:
+        logging.disable(logging.NOTSET)
+        if h not in root.handlers:
+            root.addHandler(h)
+        root.setLevel(logging.DEBUG)
+    else:
+        logging.disable(logging.CRITICAL)
+
+
 def worker_main(argv: list[str]) -> int:
     prop, shard, nshards, tier, seed, out = argv
     shard, nshards, seed = int(shard), int(nshards), int(seed)
@@ -133,9 +174,13 @@ def worker_main(argv: list[str]) -> int:
             limit = case.get("timeout_s", case_limit) if isinstance(case, dict) and "VERIF_CASE_TIMEOUT_S" not in os.environ else case_limit
             signal.setitimer(signal.ITIMER_REAL, limit, 0.05)
             try:
+                set_logging(logging_on(idx))
                 r = mod.run_case(case)
             finally:
                 signal.setitimer(signal.ITIMER_REAL, 0)
+                set_logging(False)
+            if logging_on(idx):
+                res["counters"]["cases_run_with_debug_logging_on"] += 1
             if fired[0]:
                 raise CaseTimeout("wall-clock watchdog fired %d time(s) during this case (inconclusive, not a verdict)" % fired[0])
         except BaseException as exc:  # harness failure (or wall-clock watchdog): never a verdict on asphalt
@@ -157,7 +202,7 @@ def worker_main(argv: list[str]) -> int:
         for v in r.get("violations") or []:
             res["n_violations"] += 1
             if len(res["violations"]) < MAX_VIOLATIONS_KEPT:
-                res["violations"].append({"idx": idx, "case": case, **v})
+                res["violations"].append({"idx": idx, "case": case, "logging": logging_on(idx), **v})
         if r.get("sample") is not None and len(res["samples"]) < MAX_SAMPLES:
             res["samples"].append(r["sample"])
     res["reach"] = reach.stop()
@@ -348,7 +393,7 @@ def finish(mod: Any, prop: str, tier: str, seed: int, plan: dict[str, Any], m: d
             seen_keys.add(v.get("key"))
             rp = os.path.join(ROOT, "replays", f"{prop}_{tier}_{seed}_{v['idx']}_{short_hash(v.get('key') or '')}.json")
             with open(rp, "w") as f:
-                json.dump({"property": prop, "case": v["case"], "key": v.get("key"), "msg": v.get("msg"),
+                json.dump({"property": prop, "case": v["case"], "logging": bool(v.get("logging")), "key": v.get("key"), "msg": v.get("msg"),
                            "witness": v.get("witness")}, f, indent=1, default=repr)
             print(f"   violation[{v.get('key')}]: {v.get('msg')}")
             print(f"VIOLATION property={prop} replay={rp}")
@@ -370,7 +415,9 @@ def replay(prop: str, path: str) -> int:
     mod = importlib.import_module(CHECKS[prop])
     with open(path) as f:
         rec = json.load(f)
+    set_logging(bool(rec.get("logging")))
     r = mod.run_case(rec["case"])
+    set_logging(False)
     known = {(k["property"], k["key"]) for k in load_known().get("open", [])}
     rc = 0
     for v in r.get("violations") or []:
